@@ -8,6 +8,9 @@ CHECKS = {
     "C34": "csvhold",
     "C35": "errlog",
     "C22": "arglang",
+    "C28": "aggregator",
+    "C29": "aggregator",
+    "C30": "aggregator",
 }
 
 MC = "model_checking"
@@ -66,4 +69,24 @@ CLAIMS = {
             "every split into two batches; the real aggregation must equal the reference after each batch.",
             "Inputs never contain an entry older than the aggregated entry it would merge with (no meaning in the statement).",
             "7 C35"),
+    "C28": (MC, "TLA+ spec Aggregator.tla (engine ground truth + aggregator memory + database; invariant RunContinues across "
+                "disconnect, shutdown and crash) checked by TLC; every edge of its state graph and long random histories replayed "
+                "on the real aggregator over sqlite and compared step by step by AggregatorTrace.tla",
+            "TLC explores all histories (quick 5, thorough 6 steps) of engine start/stop, connect, disconnect, shutdown+boot, "
+            "crash+boot, duplicated/late run-started and run-stopped and tag updates for any run id; every transition is executed "
+            "on the real Aggregator + handlers + dispatcher with an in-memory database ('boot' = new Aggregator object on the same "
+            "database) and TLC compares the active run, the recent-engine record, recent-run / plot-log counts and recorded rows.",
+            "Trusted: mocked publishers, sqlite in memory, one engine. A run-stopped for a run other than the open one follows the code.",
+            "6.7, 7 C28"),
+    "C29": (MC, "Aggregator.tla invariants StrictlyIncreasingPerTag / Throttled / NeverOlder / Faithful checked by TLC; the same "
+                "replayed histories, with the recorded plot-log rows compared and the invariants re-evaluated on the "
+                "implementation's own rows by AggregatorTrace.tla",
+            "Tag streams with stale (out-of-order), duplicated and late-appearing tags, for the open run, no run and other runs, "
+            "before and after reconnects and restarts; every recorded row <<tag, reported time, recorded time>> is compared with "
+            "the spec and checked against the four invariants incrementally.",
+            "Tag values are integers equal to their report time; data-log interval 1; times are small integers.", "6.7, 7 C29"),
+    "C30": (MC, "Aggregator.tla invariant OneRecentRunOnePlotLog checked by TLC; replayed histories with duplicated, resent and "
+                "reordered run-started / run-stopped and disconnects; row counts per run id compared by AggregatorTrace.tla",
+            "Same exploration as C28; after every step the number of RecentRun and PlotLog rows per run id must equal the spec's "
+            "(never more than one).", "As C28.", "6.7, 7 C30"),
 }
